@@ -45,6 +45,7 @@ R4 = [
   "an empty ByteString and mid >= 1"),
 ]
 STRENGTH = {
+ ("C11",2): "every other RefCell wrapper is shared with an observer that holds a borrow() of the cell for the whole run",
  ("C12",1): "a round that ends in a 'polled after completion' panic of an async-fn wrapper counts as C12_NoPollAfterCompletion (first run: caught by C11 only)",
  ("C14",2): "trickling transport (5-64 small partial writes inside one flush / ready / close call) in the random scripts",
  ("C17",2): "re-entrant wakers in LocalWakerSpec.tla (the destructor of the displaced waker calls wake()): C17_WakeDuringRegisterStep, NEG DropOldBeforeStore; the driver registers hand-made Rc wakers",
